@@ -262,6 +262,16 @@ fn compact_stream(ctx: &mut Ctx) {
 // Type-directed streams (C01, C02, C03, ...)
 // ---------------------------------------------------------------------------------------------
 
+/// Decodes `T` through a `CountedInput` (as a hand-written `Decode` that wants to know how many
+/// bytes a field took would): every wrapper below must still see the hook calls.
+pub struct ViaCounted<T>(pub T);
+impl<T: Decode> Decode for ViaCounted<T> {
+	fn decode<I: Input>(input: &mut I) -> Result<Self, parity_scale_codec::Error> {
+		let mut ci = CountedInput::new(input);
+		T::decode(&mut ci).map(ViaCounted)
+	}
+}
+
 pub trait Cat: Modeled + Encode + Decode {}
 impl<T: Modeled + Encode + Decode> Cat for T {}
 
@@ -699,6 +709,23 @@ pub fn run_type<T: Cat + DecodeAll + DecodeLimit>(ctx: &mut Ctx, stream: &str, n
 					};
 					ctx.emit("limit", name, &format!("limit {} {} {}", l, T::ty(bs.len() + 1), hex_or_dash(&bs)), &ans);
 					let ok = ans.starts_with("ok");
+					// oracle (C11, C19): a decoder that reads through a counting wrapper is limited
+					// exactly like one that does not (the wrapper forwards descend/ascend)
+					{
+						let r = catch_unwind(AssertUnwindSafe(|| {
+							let mut s = &bs[..];
+							let r = ViaCounted::<T>::decode_with_depth_limit(l, &mut s);
+							(r.is_ok(), s.len())
+						}));
+						let same = match (&r, ok) {
+							(Ok((true, rem)), true) => ans.ends_with(&format!(" {}", rem)),
+							(Ok((false, _)), false) => true,
+							_ => false,
+						};
+						if !same {
+							ctx.oracle_fail("C11", format!("{}: depth limit {}: decoding through a CountedInput gives ok={:?} but directly {} on {}", name, l, r.map(|x| x.0).unwrap_or(false), &ans[..ans.len().min(40)], hex_or_dash(&bs)));
+						}
+					}
 					// oracles (C11): transparent; monotone
 					if ok && ans != unl {
 						ctx.oracle_fail("C11", format!("{}: limit {} returned {} but unlimited gives {}", name, l, &ans[..ans.len().min(60)], &unl[..unl.len().min(60)]));
